@@ -98,7 +98,7 @@ func zeroRead(m spec.Message, tag uint16, k vg.Kind) string {
 // C16Dynamic: schema evolution through the dynamic tag-based API.
 func C16Dynamic(c *runner.Cfg) *report.Result {
 	res := report.New("C16", "dynamic")
-	res.Rule = "dynamic API: a message with a random tag set S (all field kinds, random write order, tags on both sides of 255/256) is read under a reader tag set S' (S' = S with random removals, additions and re-ordering): common tags equal the written values, tags of S'\\S read as zero of the reader's declared kind with presence false and without error, tags of S\\S' do not disturb anything; Copy/Merge: a writer that knows only a subset K of the fields writes new values for K, then merges the old message: K keeps the new values, every unknown field keeps the old one; non-trivial = both S\\S' and S'\\S non-empty or a merge with unknown fields; distinct = distinct encodings"
+	res.Rule = "dynamic API: a message with a random tag set S (all field kinds, random write order, tags on both sides of 255/256) is read under a reader tag set S' (S' = S with random removals, additions and re-ordering): common tags equal the written values, tags of S'\\S read as zero of the reader's declared kind with presence false and without error, tags of S\\S' do not disturb anything; Copy/Merge: a writer that knows only a subset K of the fields writes new values for K, then merges the old message: K keeps the new values, every unknown field keeps the old one (half of the merges in a nested message whose parent already wrote fields with tags of the same set); non-trivial = both S\\S' and S'\\S non-empty or a merge with unknown fields; distinct = distinct encodings"
 	x := map[*journal.Slot]*vg.Exec{}
 	mu := make(chan struct{}, 1)
 	mu <- struct{}{}
@@ -195,6 +195,29 @@ func C16Dynamic(c *runner.Cfg) *report.Result {
 		mp.Fields = append(mp.Fields, rest...)
 		mp.MergeTo = len(mp.Fields)
 		if mp.MergeFrom != mp.MergeTo {
+			// half of the merges happen in a nested message whose parent has already written fields
+			// with tags from the same set (the writer's field stack is shared between the levels)
+			if r.Bool() {
+				outer := &vg.Node{Kind: vg.KMessage}
+				otags := map[uint16]bool{}
+				for k, n := 0, 1+r.Intn(5); k < n; k++ {
+					t := a.Fields[r.Intn(len(a.Fields))].Tag
+					if otags[t] {
+						continue
+					}
+					otags[t] = true
+					outer.Fields = append(outer.Fields, vg.F(t, vg.Scalar(vg.KInt32, uint64(k))))
+				}
+				nt := uint16(1 + r.Intn(300))
+				for otags[nt] || otags[nt+1] {
+					nt++
+				}
+				outer.Fields = append(outer.Fields, vg.F(nt, mp))
+				if r.Bool() {
+					outer.Fields = append(outer.Fields, vg.F(nt+1, vg.Scalar(vg.KBool, 1)))
+				}
+				mp = outer
+			}
 			mb, err := ex.Run(mp, vg.WriterMode(r.Intn(int(vg.NumWriterModes))))
 			if err != nil {
 				res.Inconcl("merge program failed: %v", err)
